@@ -163,11 +163,16 @@ class Option(Evaluatable[A]):
         default key is not an Evaluatable, it is returned as-is.
         """
         try:
-            value = resolve(get_dotted_key(self.key, options), options)
+            provided = get_dotted_key(self.key, options)
         except (KeyError, TypeError):
             if self.default is MISSING:
                 raise KeyNotFoundError(self.key, self)
             value = self.default.evaluate(options)
+        else:
+            try:
+                value = resolve(provided, options)
+            except KeyError as e:
+                raise KeyNotFoundError((*e.args, self.key)[0], self) from e
 
         TypeValidationRequest(value, self.type, options).run()
         self._enforce_domain(value, options)
